@@ -563,7 +563,7 @@ class BitArray(Bits):
                 else:
                     bytesizes.extend([utils.PACK_CODE_SIZE[f[-1]]] * int(f[:-1]))
         elif isinstance(fmt, abc.Iterable):
-            bytesizes = fmt
+            bytesizes = list(fmt)
             for bytesize in bytesizes:
                 if not isinstance(bytesize, numbers.Integral) or bytesize < 0:
                     raise ValueError(f"Improper byte length {bytesize}.")
